@@ -106,13 +106,26 @@ struct HaWorld : World {
         // keys chosen to collide on purpose: ask the library's own hash where a candidate lands
         int hot1 = (int)r.below((uint32_t)maxslots), hot2 = (int)r.below((uint32_t)maxslots);
         std::set<Bytes> seen; keys.clear();
-        Bytes longbase;
+        Bytes longbase, lastbin;
         for (int i = 0; i < 20; i++) longbase += (char)('A' + r.below(26));
         int tries = 0;
         while ((int)keys.size() < U) {
             Bytes k; int style = (int)r.below(10);
             if (style < 4) { int len = r.range(1, 14); for (int i = 0; i < len; i++) k += (char)('a' + r.below(6)); k += '\0'; }            // short C string
-            else if (style < 6) { int len = r.range(1, 15); for (int i = 0; i < len; i++) k += (char)r.below(256); }                          // short binary
+            else if (style < 6) {
+                // short binary keys; every other one is a sibling of the previous one: same length, identical up to an embedded
+                // NUL byte and different only after it (keys are byte strings, not C strings)
+                if (!lastbin.empty() && r.chance(1, 2)) {
+                    k = lastbin;
+                    size_t z = k.find('\0');
+                    if (z == Bytes::npos || z + 1 >= k.size()) { z = 1; k[1] = '\0'; }
+                    size_t pos = z + 1 + r.below((uint32_t)(k.size() - z - 1));
+                    k[pos] = (char)(k[pos] + 1 + (char)r.below(200));
+                } else {
+                    int len = r.range(3, 15); for (int i = 0; i < len; i++) k += (char)r.below(256);
+                    lastbin = k;
+                }
+            }
             else if (style == 6) { for (int i = 0; i < 15; i++) k += (char)('a' + r.below(3)); k += '\0'; }                                    // exactly 16 with terminator
             else if (style < 9) { k = longbase.substr(0, 16); int len = r.pick(std::vector<int>{17, 18, 24, 24, 24, 40, 64, 80, 128}); while ((int)k.size() < len - 1) k += (char)('a' + r.below(4)); k += '\0'; }   // long keys sharing the stored prefix (and often the length)
             else { k = longbase.substr(0, 16); int len = r.chance(1, 6) ? 65535 : (r.chance(1, 4) ? r.pick(std::vector<int>{192, 256, 320}) : r.range(100, 400)); while ((int)k.size() < len - 1) k += (char)('a' + r.below(26)); k += '\0'; }
